@@ -14,6 +14,8 @@ CHECK_DEADLOCK FALSE
 
 def plans(cases, run):
     n = {"quick": 1500, "thorough": 30000}[run.tier]
+    for i, c in enumerate(cases):
+        c["mw"] = i % 2 == 1      # every second case behind a middleware that wraps the ResponseWriter
     out = [("mc", {"cases": cases, "random": 0, "reps": 12}, None, False),
            ("rnd", {"cases": [], "random": n, "reps": 12, "_seed": run.seed * 1000 + 1}, None, False),
            ("nillog", {"cases": [], "random": n // 10, "reps": 2, "nilLogger": True, "_seed": run.seed * 1000 + 2}, None, False)]
@@ -59,8 +61,8 @@ FAM = {
     "driver": "nego",
     "plans": plans,
     "replay_plan": lambda rp, run: [("replay", {"cases": [{"produces": rp["event"]["produces"], "registered": rp["event"]["registered"],
-                                                           "def": rp["event"]["def"], "accs": [rp["event"]["acc"]],
-                                                           "accs2": [rp["event"].get("acc2", "")], "compact": rp["event"].get("compact", False), "preCT": rp["event"].get("preCT", "")}],
+                                                           "def": rp["event"]["def"], "accs": rp["event"].get("ctx") or [rp["event"]["acc"]],
+                                                           "accs2": [rp["event"].get("acc2", "") if a == rp["event"]["acc"] else "" for a in (rp["event"].get("ctx") or [rp["event"]["acc"]])], "compact": rp["event"].get("compact", False), "preCT": rp["event"].get("preCT", ""), "mw": rp["event"].get("mw", False)}],
                                                 "random": 0, "reps": 12}, None, False)],
     "trace_module": "NegoTrace",
     "trace_const": "CONSTANTS TrimsAndScansParams = TRUE\n  ProducesFirst = TRUE\n",
